@@ -150,7 +150,17 @@ func (g *kopGen) drawSub(t *rapid.T, c skCfg, exact bool, total float64) *kSub {
 			sub = 0
 			continue
 		}
-		op := g.drawAdd(t, total+sub)
+		var op kop
+		switch rapid.IntRange(0, 24).Draw(t, "subbulk") {
+		case 0:
+			// many thinly spread unit entries: a paginated argument keeps them in its buffer, its encoding carries one
+			// long index-delta block, which a paginated receiver decodes in several batches
+			op = g.drawSpread(t, total+sub)
+		case 1:
+			op = g.drawBurst(t, total+sub)
+		default:
+			op = g.drawAdd(t, total+sub)
+		}
 		sub += kopWeight(op)
 		h.ops = append(h.ops, op)
 	}
@@ -272,9 +282,18 @@ func (h *kSub) build() (obs.SK, *skModel) {
 				panic(fmt.Sprintf("harness: sub-history AddWithCount(%v,%v): %v", op.V, op.W, err))
 			}
 			k.add(op.V, op.W)
+		case "burst":
+			for _, v := range op.Burst {
+				if err := s.Add(v); err != nil {
+					panic(fmt.Sprintf("harness: sub-history Add(%v): %v", v, err))
+				}
+				k.add(v, 1)
+			}
 		case "clear":
 			s.Clear()
 			k.clear()
+		default:
+			panic("harness: sub-history operation " + op.Kind)
 		}
 	}
 	return s, k
